@@ -557,17 +557,20 @@ def run_matrix(ctx, tmpdir):
     import time as _time
     cells = matrix_cells(ctx.thorough)
     stats = {"cells": 0, "events": 0, "signals": 0, "empty": 0, "no_path": 0, "cut": 0, "slowest": []}
+    reps = ctx.n(1, 4)
     for ci, cell in enumerate(cells):
         key = "matrix:%s:%s:%s:%s" % (cell[0], cell[3], cell[5], cell[6])
-        t0 = _time.time()
-        st, bad = run_cell(cell, ctx.seed * 1000 + ci, tmpdir,
-                           case=lambda n, nt, sig: ctx.case(key=(key, n), nontrivial=nt, sample={"cell": key, "signals": sig}))
-        stats["cells"] += 1
-        for k, v in st.items():
-            stats[k] += v
-        stats["slowest"] = sorted(stats["slowest"] + [(round(_time.time() - t0, 2), key)], reverse=True)[:3]
-        if bad:
-            ctx.fail(key, bad[0], {"kind": "matrix", "cell_index": ci, "thorough": ctx.thorough, **bad[1]})
+        for rep in range(reps):
+            t0 = _time.time()
+            st, bad = run_cell(cell, (ctx.seed * 1000 + ci) * 10 + rep, tmpdir,
+                               case=lambda n, nt, sig: ctx.case(key=(key, rep, n), nontrivial=nt, sample={"cell": key, "signals": sig}))
+            stats["cells"] += 1
+            for k, v in st.items():
+                stats[k] += v
+            stats["slowest"] = sorted(stats["slowest"] + [(round(_time.time() - t0, 2), key)], reverse=True)[:3]
+            if bad:
+                ctx.fail(key, bad[0], {"kind": "matrix", "cell_index": ci, "thorough": ctx.thorough, **bad[1]})
+                break
     return stats
 
 
